@@ -34,7 +34,7 @@ TECHNIQUE = (
 
 META = {
     "explanation": (
-        "Six families of structural necessary conditions, decided on syntax trees, per-function control-flow graphs and small truth / decision tables. "
+        "Seven families of structural necessary conditions, decided on syntax trees, per-function control-flow graphs and small truth / decision tables. "
         "R1 exhaustiveness: every token type that the markdown-it rule modules and the plugin modules imported by parsers/mdit.py can emit "
         "(state.push / Token(...) / .type = ..., folded X_open/X_close -> X as SyntaxTreeNode does) has a render_<type> method that the renderer's "
         "`rules` table admits, or is consumed inside another handler / removed by a core rule / never registered by MyST (each table entry re-verified "
@@ -73,7 +73,11 @@ META = {
         "front ends render with create_md_parser(config, <DocutilsRenderer class>) of the document being parsed - directly, through a helper returning a fresh parser, or from a cache (module-, class- or instance-level, in the front end or a helper) whose key covers "
         "every configuration field create_md_parser reads (repr(config) covers only the fields MdParserConfig.__repr__ prints in full) and whose options['myst_config'] is refreshed. "
         "R6: update_section_level_state records the section under its level, picks the parent among exactly the strictly shallower levels and removes exactly the deeper levels (if the level is stored after the pruning, the filter may drop the level itself) "
-        "(decision table of the filter over key - level, or linear form of the range bounds; a constant bound is accepted only if no call site adds an unbounded term such as self._heading_offset to the level). Only normal control flow is judged (exception handlers are C01's subject)."
+        "(decision table of the filter over key - level, or linear form of the range bounds; a constant bound is accepted only if no call site adds an unbounded term such as self._heading_offset to the level). "
+        "R7: a docutils node constructed in place as an argument of a renderer helper call (no local name, so R2(a) has nothing to track; e.g. the inline wrapper of the missing-file branch of SphinxRenderer.render_link_path) is attached exactly once: "
+        "the helper's computed summary for the receiving parameter attaches it once on every normal path, or the helper hands it back unattached (`return p`) on every path and the caller attaches the value of the call "
+        "(argument of append/extend/insert, `+=`, child of a node constructor, or bound to a name that is attached once on every path); a call whose value is dropped (expression statement, `return <call>` in a render_* / `-> None` method) is a violation, "
+        "a helper that attaches on some paths and hands back on others, or any other use of the value, is an analysis error. Only normal control flow is judged (exception handlers are C01's subject)."
     ),
     "not_decided": (
         "equality of the token tree and the doctree for all documents (needs the trees); the content model of docutils (which node may contain which); behaviour of directives/roles and of "
@@ -4635,7 +4639,119 @@ def enclosing_expr(n: ast.AST) -> ast.AST:
     return cur
 
 
-RULES = [r1_handler_exhaustiveness, r2_nesting_discipline, r3_verbatim_leaves, r4_current_node_writers, r5_backend_agreement, r6_section_level_state]
+# ---------------------------------------------------------------------------
+# R7 nodes built in place as an argument of a helper call (no name to track in R2(a))
+
+
+def _value_attached_by_caller(an: "Nesting", fi: FunctionInfo, call: ast.Call) -> tuple[str, str]:
+    """What the caller does with the (still unattached) node a helper call evaluates to:
+    ('ok' | 'bad' | 'unknown', explanation)."""
+    p = parent(call)
+    if isinstance(p, ast.Expr):
+        return "bad", "the call is an expression statement: the node it returns is discarded"
+    if isinstance(p, ast.Return):
+        r = fi.node.returns if not fi.is_lambda else None
+        if fi.name.startswith("render_") or (isinstance(r, ast.Constant) and r.value is None):
+            return "bad", f"`return <call>` in {fi.qualname}, whose result nobody uses (handlers are called for their effect on current_node; declared -> None)"
+        return "unknown", f"{fi.qualname} returns the node to its own callers"
+    if isinstance(p, ast.AugAssign) and isinstance(p.op, ast.Add) and p.value is call:
+        return "ok", f"`{short(p, 50)}`"
+    if isinstance(p, ast.Call) and call in p.args:
+        f = p.func
+        if isinstance(f, ast.Attribute) and f.attr in ("append", "extend", "insert"):
+            return "ok", f"handed to .{f.attr}(...)"
+        if _node_class(p, fi.module) is not None:
+            return "ok", "child of a node constructed here"
+        return "unknown", f"handed on to `{short(p.func, 40)}`"
+    if isinstance(p, (ast.Assign, ast.AnnAssign)) and getattr(p, "value", None) is call:
+        tgts = p.targets if isinstance(p, ast.Assign) else [p.target]
+        if len(tgts) == 1 and isinstance(tgts[0], ast.Name):
+            res = an.track(fi, p, tgts[0].id)
+            counts = set()
+            for v in res.values():
+                counts |= v
+            if counts == {1}:
+                return "ok", f"bound to `{tgts[0].id}`, which is attached once on every path"
+            if res and 0 in counts:
+                return "bad", f"bound to `{tgts[0].id}`, which is not attached on some path"
+            if 2 in counts:
+                return "bad", f"bound to `{tgts[0].id}`, which is attached more than once on some path"
+    return "unknown", f"used in `{short(p, 50)}`"
+
+
+@rule("C02.R7")
+def r7_nodes_built_in_place(corpus: Corpus, rep: Report, tier: str):
+    rep.rule("C02.R7", "a docutils node constructed in place as an argument of a renderer helper is attached exactly once: by the helper on every normal path, or - if the helper hands it back unattached - by the caller from the value of the call")
+    _load_node_classes(corpus, rep)
+    base_ci = corpus.cls(RENDERER)
+    n = 0
+    for klass in _renderer_classes(corpus):
+        an = _nesting(corpus, klass)
+        for fi in an.scope():
+            own = fi.cls is not None and fi.cls.fq == klass.fq
+            if not own and (klass.fq == base_ci.fq or not _calls_overridden(corpus, fi, klass)):
+                continue  # inherited unchanged: judged in the defining class
+            ctx = "" if own else f"|as {klass.name}"
+            ordinals: dict[str, int] = {}
+            calls = sorted((c for c in fi.local_nodes() if isinstance(c, ast.Call)), key=lambda c: (c.lineno, c.col_offset))
+            for c in calls:
+                built = [a for a in list(c.args) + [k.value for k in c.keywords] if isinstance(a, ast.Call) and _node_class(a, fi.module) is not None and an.is_producer(a, fi) is not None]
+                if not built or _node_class(c, fi.module) is not None:
+                    continue  # children handed to a node constructor are part of that node
+                f = c.func
+                if isinstance(f, ast.Attribute) and f.attr in ("append", "extend", "insert"):
+                    continue  # attached on the spot
+                d = dotted(f) or ""
+                if d in BENIGN_CALLEES or (isinstance(f, ast.Attribute) and f.attr.startswith("note_")):
+                    continue
+                m = an.resolve_callee(c, fi)
+                if m is None or m.is_lambda:
+                    continue  # library callee (nested_parse, Text ...): not a renderer helper, outside this obligation
+                rep.saw_function(fi.fq)
+                rep.saw_function(m.fq)
+                for a in built:
+                    cname = (_node_class(a, fi.module) or "?").rsplit(".", 1)[-1]
+                    k0 = f"{fi.fq}|{m.name}({cname} built in place)|attached once"
+                    ordinals[k0] = ordinals.get(k0, 0) + 1
+                    k = k0 + (f"#{ordinals[k0]}" if ordinals[k0] > 1 else "") + ctx
+                    site = fi.module.site(c)
+                    ps = an._param_for_arg(c, m, lambda x, a=a: x is a)
+                    if len(ps) != 1:
+                        rep.error("C02.R7", f"{fi.fq}: parameter of {m.fq} receiving `{short(a, 40)}` not determined")
+                        continue
+                    res = an.track(m, "ENTRY", ps[0])
+                    raw_ret = {kk: set(v) for kk, v in an.last_raw_returns.items()}
+                    at_exit: set[int] = set()
+                    for kk, v in res.items():
+                        if kk not in raw_ret:
+                            at_exit |= v
+                    handed_back: set[int] = set()
+                    for v in raw_ret.values():
+                        handed_back |= v
+                    n += 1
+                    if not res:
+                        rep.error("C02.R7", f"{m.fq}: no normal path to the exit")
+                    elif 2 in at_exit | handed_back:
+                        rep.violation("C02.R7", k, site, f"the {cname} built in the call of {m.name} is attached more than once by it on some path (parameter `{ps[0]}`): the subtree appears twice")
+                    elif 0 in at_exit:
+                        rep.violation("C02.R7", k, site, f"the {cname} built in the call of {m.name} is never attached on some path of {m.qualname} (parameter `{ps[0]}`) and nothing else refers to it: what is rendered into it is missing from the doctree")
+                    elif handed_back <= {1} and 0 not in handed_back:
+                        rep.ok("C02.R7", k, site, f"{m.qualname} attaches its parameter `{ps[0]}` once on every normal path")
+                    elif handed_back == {0} and not at_exit:
+                        verdict, why = _value_attached_by_caller(an, fi, c)
+                        if verdict == "ok":
+                            rep.ok("C02.R7", k, site, f"{m.qualname} hands `{ps[0]}` back unattached; the caller attaches it: {why}")
+                        elif verdict == "bad":
+                            rep.violation("C02.R7", k, site, f"{m.qualname} hands the {cname} built in this call back unattached (`return {ps[0]}`), but the caller does not attach it - {why}: "
+                                          "the node and the link text rendered into it are built and silently lost")
+                        else:
+                            rep.error("C02.R7", f"{fi.fq}: {m.name} returns the {cname} built in the call unattached and the use of the value is not understood: {why}")
+                    else:
+                        rep.error("C02.R7", f"{m.fq} attaches its parameter `{ps[0]}` on some paths and hands it back unattached on others")
+    rep.expect_min("C02.R7", 1, "the missing-file branch of SphinxRenderer.render_link_path builds its inline wrapper in the call of _process_wrap_node")
+
+
+RULES = [r1_handler_exhaustiveness, r2_nesting_discipline, r3_verbatim_leaves, r4_current_node_writers, r5_backend_agreement, r6_section_level_state, r7_nodes_built_in_place]
 
 
 def _seg(m: Module, node: ast.AST) -> str:
@@ -4727,6 +4843,19 @@ def mutants(corpus: Corpus):
     add("c02-cell-content-dropped", "C02.R2", base, _call_stmt(f, "self.render_children(child)"), "pass", "render_table|children")
     f = sph.func("SphinxRenderer._process_wrap_node")
     add("c02-sphinx-inner-node-not-attached", "C02.R2", sph, _call_stmt(f, "wrap_node.append(inner_node)"), "pass", "inner_node")
+    # ---- R7 (the wrap node that render_link_path builds in the call of _process_wrap_node)
+    wp = f.params[1] if len(f.params) > 1 else "wrap_node"
+    ap = _call_stmt(f, f"self.current_node.append({wp})")
+    add("c02-node-built-in-call-never-attached", "C02.R7", sph, ap, "pass", "built in place")
+    if ap is not None:
+        ind = indent_of(f, ap)
+        add("c02-node-built-in-call-attached-twice", "C02.R7", sph, ap, _seg(sph, ap) + f"\n{ind}self.current_node.append({wp})", "built in place")
+        # the helper refactored to return the node instead of attaching it; the callers that ignore the value are left as they are
+        seg = _seg(sph, f.node)
+        add("c02-helper-returns-node-caller-discards", "C02.R7", sph, f.node, seg.replace(_seg(sph, ap), "pass", 1).rstrip() + f"\n{ind}return {wp}", "built in place")
+    else:
+        out.append(("c02-node-built-in-call-attached-twice", "anchor construct not found on this tree"))
+        out.append(("c02-helper-returns-node-caller-discards", "anchor construct not found on this tree"))
     f = sph.func("SphinxRenderer.add_math_target")
     rt = find_node(f, lambda n: isinstance(n, ast.Return))
     if rt is not None:
